@@ -5,6 +5,7 @@ import SslModel.Gen.PrattTable
 import SslModel.Model.Seq
 import SslModel.Model.TyIO
 import SslModel.Model.SpecIO
+import SslModel.Model.TyText
 /-! Model side of the correspondence: one request per line on stdin, one canonical answer per
     line on stdout.  Import-free apart from the model, so it links as a native executable. -/
 open Ssl
@@ -128,8 +129,16 @@ def handleTy (rest : String) : String :=
   | [.atom "q", a] =>
     match Ty.ofSexp a with
     | some a =>
-      s!"(index_result {Ty.showOpt a.indexResult}) (element_type {Ty.showOpt a.elementType}) (return_type {Ty.showOpt a.returnType}) (params {Ty.showOptL a.params}) (mut_element_type {Ty.showOpt a.mutElementType}) (is_function {a.isFunction}) (is_tuple {a.isTuple}) (is_mut {a.isMut}) (tuple_len {optN a.tupleLen}) (min_tuple_len {optN a.minTupleLen}) (flatten_tuple {Ty.showOptL a.flattenTuple}) (iter_element {Ty.showOpt a.iterElement}) (tuple_element_at0 {Ty.showOpt (a.tupleElementAt 0)}) (tuple_element_at1 {Ty.showOpt (a.tupleElementAt 1)}) (field_type_a {Ty.showOpt (a.fieldType "a")}) (field_type_b {Ty.showOpt (a.fieldType "b")}) (has_field_a {a.hasField "a"}) (can_be_indexed {a.canBeIndexed}) (is_iterator {a.isIterator}) (is_struct {a.isStruct})"
+      s!"(index_result {Ty.showOpt a.indexResult}) (element_type {Ty.showOpt a.elementType}) (return_type {Ty.showOpt a.returnType}) (params {Ty.showOptL a.params}) (mut_element_type {Ty.showOpt a.mutElementType}) (mut_assign_type {Ty.showOpt a.mutAssignType}) (is_function {a.isFunction}) (is_tuple {a.isTuple}) (is_mut {a.isMut}) (tuple_len {optN a.tupleLen}) (min_tuple_len {optN a.minTupleLen}) (flatten_tuple {Ty.showOptL a.flattenTuple}) (iter_element {Ty.showOpt a.iterElement}) (tuple_element_at0 {Ty.showOpt (a.tupleElementAt 0)}) (tuple_element_at1 {Ty.showOpt (a.tupleElementAt 1)}) (field_type_a {Ty.showOpt (a.fieldType "a")}) (field_type_b {Ty.showOpt (a.fieldType "b")}) (has_field_a {a.hasField "a"}) (can_be_indexed {a.canBeIndexed}) (is_iterator {a.isIterator}) (is_struct {a.isStruct})"
     | none => "(bad-type)"
+  | [.atom "print", a] =>
+    match Ty.ofSexp a with
+    | some a => Sexp.quote (TyText.print a)
+    | none => "(bad-type)"
+  | [.atom "parse", .str text] =>
+    match TyText.parse text with
+    | some t => "(some " ++ t.render ++ ")"
+    | none => "none"
   | [.atom "wf", a] =>
     match Ty.ofSexp a with
     | some a => b01 a.wf
@@ -145,7 +154,21 @@ def handleProg (rest : String) : String :=
     | _, _ => "(bad-program)"
   | _ => "(bad-request)"
 
+/-- `repl <flags> <fuel> (name*) (S*)*` -/
+def handleRepl (rest : String) : String :=
+  match Sexp.parseMany rest with
+  | .atom flags :: .atom fuel :: .list names :: chunks =>
+    let names := names.filterMap fun (n : Sexp) => match n with | Sexp.atom a => some a | _ => none
+    let cs := chunks.mapM fun (c : Sexp) => match c with
+      | Sexp.list ss => ss.mapM Spec.exprOf
+      | _ => none
+    match cs, fuel.toNat? with
+    | some cs, some fuel => Spec.runRepl fuel (flags == "std") names cs
+    | _, _ => "(bad-program)"
+  | _ => "(bad-request)"
+
 def handle (line : String) : String :=
+  if line.startsWith "repl " then handleRepl ((line.drop 5).trimAscii.toString) else
   if line.startsWith "prog " then handleProg ((line.drop 5).trimAscii.toString) else
   if line.startsWith "ty " then handleTy ((line.drop 3).trimAscii.toString) else
   match line.trimAscii.toString.splitOn " " with
